@@ -57,6 +57,7 @@ class Explorer:
         self.n_queries = 0
         self.solver_time = 0.0
         self.n_decisions = 0
+        self.n_merges = 0
         self.n_paths = 0
         self._prefix = []
         self._path = None
